@@ -261,6 +261,9 @@ def install_seams(run_seed):
     import logging
 
     logging.disable(logging.INFO)
+    from simkit.clock import pin_clock
+
+    pin_clock()
     import gc
 
     # the cyclic garbage collector runs finalizers at allocation-count dependent moments (which differ between
